@@ -908,13 +908,17 @@ Proof.
   { unfold sane in Sw. rewrite wrapi64_id by (unfold in64, min64, max64, two63; lia).
     unfold tmf. rewrite (tm0_some _ _ _ Hvn). lia. }
   rewrite <- HE.
-  apply (find_tail_keeps_window (tmf times) (p_window p) (p_block p) (s_tail st1) v n vn (s_head st1)
-           (fun h0 => if st_has st1 h0 then tm times h0 else None) x); try assumption; try lia.
-  - unfold two64 in *. lia.
-  - intros h0 Hh0. apply Hmono. lia.
-  - intros h0 Hh0. cbn beta. assert (Hs : st_has st1 h0 = true) by (apply (st_has_wf st1 n h0 Hwf1); lia). rewrite Hs.
+  assert (B1 : s_tail st1 <= s_head st1) by lia.
+  assert (B2 : s_head st1 + 1 < two64) by (unfold n in *; lia).
+  assert (B3 : forall h0, s_tail st1 <= h0 < s_head st1 -> (0 <= tmf times (h0 + 1)%N - tmf times h0)%Z)
+    by (intros h0 Hh0; apply Hmono; lia).
+  assert (B4 : forall h0, s_tail st1 <= h0 <= s_head st1 ->
+               (fun h1 => if st_has st1 h1 then tm times h1 else None) h0 = Some (tmf times h0)).
+  { intros h0 Hh0. cbn beta. assert (Hs : st_has st1 h0 = true) by (apply (st_has_wf st1 n h0 Hwf1); lia). rewrite Hs.
     destruct (tm_some times h0 ltac:(fold n; lia)) as [v0 Hv0]. rewrite Hv0.
-    unfold tmf. rewrite (tm0_some _ _ _ Hv0). reflexivity.
+    unfold tmf. rewrite (tm0_some _ _ _ Hv0). reflexivity. }
+  apply (find_tail_keeps_window (tmf times) (p_window p) (p_block p) (s_tail st1) v n vn (s_head st1)
+           (fun h0 => if st_has st1 h0 then tm times h0 else None) x B1 B2 B3 B4 TC). lia.
 Qed.
 
 (** * Witnesses of the regions where the property fails (run on the real code by harness/c16) *)
@@ -984,41 +988,39 @@ Lemma w9c_corner_fixed :
   start_step w9c_params w9c_times 306 (Store 1 50 []) = Obs OOk [] (Store 41 61 []).
 Proof. vm_compute. auto. Qed.
 
-(** F9a: store [1..50], network head 200, blockTime 10ns, window 200ns *)
+(** the former finding F9a (6240466, 970b299): store [1..50], network head 200,
+    blockTime 10ns, window 200ns: the tail is looked for among the stored headers
+    (here: the next adjacent header 51); no orphan, no refused DeleteRange *)
 Definition w9a_params : params := Params 200 0 HNone w_big 10 1.
 Definition w9a_times : list Z := mk_times 10%Z (repeat 10%Z 199).
-Lemma w9a_orphan :
+Lemma w9a_fixed :
   params_valid w9a_params = true /\
-  start_run w9a_params w9a_times 2001 (Store 1 50 []) = (Obs OErr [180] (Store 1 50 [180]), WDelete).
+  start_run w9a_params w9a_times 2001 (Store 1 50 []) = (Obs OOk [51] (Store 51 200 []), WDone).
 Proof. vm_compute. auto. Qed.
 
-(** F9a, permanent: 50 headers, the node is away for 5000s (trusting period 1000s), 150 more headers *)
+(** ... also after 5000s away with a trusting period of 1000s (the former permanent wedge) *)
 Definition w9w_params : params := Params (20 * w_sec)%Z 0 HNone (1000 * w_sec)%Z w_sec 1.
 Definition w9w_times : list Z := mk_times 0%Z (repeat w_sec 49 ++ [5000 * w_sec]%Z ++ repeat w_sec 149).
 Definition w9w_now : Z := (5198 * w_sec + 1)%Z.
-Lemma w9w_first :
+Lemma w9w_fixed :
   params_valid w9w_params = true /\
-  expired w9w_params w9w_now (tmf w9w_times 200) = false /\
-  start_step w9w_params w9w_times w9w_now (Store 1 50 []) = Obs OErr [180] (Store 1 50 [180]) /\
-  start_step w9w_params w9w_times w9w_now (Store 1 50 [180]) = Obs OErr [180] (Store 1 50 [180]).
+  start_run w9w_params w9w_times w9w_now (Store 1 50 []) = (Obs OOk [51] (Store 51 200 []), WDone).
 Proof. vm_compute. auto. Qed.
 
-Lemma w9w_forever : forall k,
-  o_out (start_step w9w_params w9w_times w9w_now
-           (Nat.iter k (fun s => o_store (start_step w9w_params w9w_times w9w_now s)) (Store 1 50 []))) = OErr.
-Proof.
-  destruct w9w_first as (_ & _ & F1 & F2).
-  assert (G : forall k, Nat.iter (S k) (fun s => o_store (start_step w9w_params w9w_times w9w_now s)) (Store 1 50 [])
-                        = Store 1 50 [180]).
-  { induction k as [|k IH].
-    - cbn [Nat.iter nat_rect]. rewrite F1. reflexivity.
-    - change (Nat.iter (S (S k)) ?f ?x) with (f (Nat.iter (S k) f x)). rewrite IH. rewrite F2. reflexivity. }
-  intros [|k].
-  - cbn [Nat.iter nat_rect]. rewrite F1. reflexivity.
-  - rewrite G. rewrite F2. reflexivity.
-Qed.
+(** ... and a configured SyncFromHeight above everything stored restarts the store from it *)
+Lemma w9a_restart :
+  start_run (Params (337 * w_hour)%Z 80 HNone w_big w_sec 1) (mk_times 0%Z (repeat w_sec 99)) (99 * w_sec + 1)%Z
+            (Store 1 50 []) = (Obs OOk [80] (Store 80 100 []), WDone).
+Proof. vm_compute. auto. Qed.
 
-(** F9d: headers at 0, 10, 150ns; window 100ns, blockTime 1ns *)
+(** the lagging store with fast blocks: store [15..23], network head 29, window
+    19ns, blockTime 10ns, headers 2-5ns apart (far case, estimate 28): tail 23, header 22 is the youngest removed *)
+Definition wlag_times : list Z := mk_times 0%Z [2; 3; 2; 3; 2; 3; 3; 2; 2; 3; 2; 3; 2; 3; 2; 3; 2; 2; 2; 5; 2; 5; 2; 2; 5; 2; 3; 2]%Z.
+Lemma wlag_keeps_window :
+  start_run (Params 19 0 HNone w_big 10 1) wlag_times 75 (Store 15 23 []) = (Obs OOk [] (Store 23 29 []), WDone) /\
+  (tmf wlag_times 22 < tmf wlag_times 29 - 19)%Z /\ (tmf wlag_times 23 >= tmf wlag_times 29 - 19)%Z.
+Proof. vm_compute. repeat split; try reflexivity; discriminate. Qed.
+
 (** the former finding F9f (80904e6): the store is the single header 62,
     SyncFromHash names header 61; the last re-fetched chunk [62] is accepted again *)
 Definition w9f_params : params := Params (337 * w_hour)%Z 0 (HAt 61) w_big w_sec 1.
@@ -1140,11 +1142,9 @@ Proof.
     apply (st_has_wf st1 _ h Hwf1). destruct Hst1 as [->|(A & B & C)]; [auto|]. lia. }
   pose proof (subjective_tail_spec p times st1 Hwf1 H64 Hv) as R.
   set (r := subjective_tail p times st1) in *. clearbody r.
-  destruct R as [|req w' Hw'|req st' W1 W2 W3 W4|req x' W1 W2 W3];
+  destruct R as [|req w' Hw'|req st' W1 W2 W3 W4];
     cbn [fst snd o_out o_req o_store]; intros Hnd h Hin; try (apply Hsub; exact Hin).
-  - contradiction.
-  - specialize (Hsub h Hin). pose proof (proj1 (st_has_wf st1 _ h Hwf1) Hsub).
-    unfold st_has, st_empty. cbn. lia.
+  contradiction.
 Qed.
 
 (** everything the oracle lemma needs to know about a run, by reason *)
@@ -1168,7 +1168,7 @@ Lemma start_run_facts p times now st :
               (p_hash p = HNone /\ 0 < p_from p /\ in_chain times (p_from p) = false) \/
               (p_hash p = HNone /\ p_from p = 0)) /\
              exists init st1, start_call p times now st = inr (init, st1)
-  | WDelete => params_valid p = true /\ o_out m = OErr
+  | WDelete => False
   end.
 Proof.
   intros Hwf H64. unfold start_run.
@@ -1190,7 +1190,7 @@ Proof.
     pose proof (subjective_tail_spec p times st1 Hwf1 H64 Hv) as R.
     pose proof (subjective_tail_why p times st1 Hwf1 Hv) as (Y1 & Y2 & Y3 & Y4 & Y5 & Y6 & Y7).
     set (r := subjective_tail p times st1) in *. clearbody r.
-    destruct R as [|req w' Hw'|req st' W1 W2 W3 W4|req x' W1 W2 W3];
+    destruct R as [|req w' Hw'|req st' W1 W2 W3 W4];
       cbn [fst snd o_out o_req o_store] in *.
     + reflexivity.
     + destruct Hw' as [Hw1|[Hw1|Hw1]]; subst w'.
@@ -1200,32 +1200,9 @@ Proof.
     + repeat split; auto. destruct init.
       * destruct (wf_adopt times st' W1 W2) as [_ A2]. rewrite A2. exact W2.
       * destruct (wf_sync_up st' _ (net_head times) W1 W2 ltac:(lia)) as [_ A2]. rewrite A2. exact W2.
-    + split; auto.
 Qed.
 
-(** * The refutations stated in Props/C16.v (what is still false of the current code) *)
-Lemma tail_within_chain_refuted : exists p times now st,
-  params_valid p = true /\ wf st (net_head times) /\
-  o_out (start_step p times now st) = OErr /\ s_extra (o_store (start_step p times now st)) <> [].
-Proof.
-  exists w9a_params, w9a_times, 2001%Z, (Store 1 50 []).
-  destruct w9a_orphan as [A B]. split; [exact A|].
-  split; [split; [reflexivity|right; vm_compute; repeat split; discriminate]|].
-  unfold start_step. rewrite B. cbn. split; [reflexivity|discriminate].
-Qed.
-
-Lemma never_wedges_refuted : exists p times now st,
-  params_valid p = true /\ wf st (net_head times) /\
-  expired p now (tmf times (net_head times)) = false /\
-  forall k, o_out (start_step p times now
-                     (Nat.iter k (fun s => o_store (start_step p times now s)) st)) = OErr.
-Proof.
-  exists w9w_params, w9w_times, w9w_now, (Store 1 50 []).
-  destruct w9w_first as (A & B & _ & _). split; [exact A|].
-  split; [split; [reflexivity|right; vm_compute; repeat split; discriminate]|].
-  split; [exact B|exact w9w_forever].
-Qed.
-
+(** * Examples stated in Props/C16.v *)
 (** non-vacuity of the positive step-level theorems: runs that meet their
     hypotheses and move the tail up: the close case (store [45..60]) and the far
     case with fast blocks (store [1..50], tail found by the downward walk) *)
@@ -1245,3 +1222,35 @@ Lemma wok_far_run :
   start_run w9c_params w9c_times 306 (Store 1 50 []) = (Obs OOk [] (Store 41 61 []), WDone) /\
   (tmf w9c_times 40 < tmf w9c_times 61 - 100)%Z /\ (tmf w9c_times 41 >= tmf w9c_times 61 - 100)%Z.
 Proof. vm_compute. repeat split; try reflexivity; discriminate. Qed.
+
+(** C16 "never wedges", FULL: Start fails only for reasons the environment
+    explains -- the only head the network offers is itself expired, or the
+    configured SyncFromHash / SyncFromHeight names a header the network does not
+    have. Every parameter set, every chain, every clock, every well-formed store. *)
+Theorem start_err_only_env p times now st :
+  wf st (net_head times) -> net_head times + 2 < two64 -> 1 <= net_head times ->
+  let '(o, w) := start_run p times now st in
+  o_out o = OErr ->
+  (w = WInitExpired /\ expired p now (tm0 times (net_head times)) = true) \/
+  (w = WFetch /\ ((exists k, p_hash p = HAt k /\ in_chain times k = false) \/
+                  (p_hash p = HNone /\ net_head times < p_from p))).
+Proof.
+  intros Hwf H64 Hn.
+  pose proof (start_run_facts p times now st Hwf H64) as F.
+  pose proof (start_window_any p times now st Hwf H64 Hn) as WA.
+  destruct (start_run p times now st) as [m w].
+  destruct w; intros Ho.
+  - destruct F as (_ & Ho' & _). congruence.
+  - destruct F as (_ & -> & _). discriminate.
+  - destruct F as (_ & ->). discriminate.
+  - destruct F as (_ & _ & Hl). left. split; [reflexivity|]. lia.
+  - congruence.
+  - contradiction.
+  - destruct F as (_ & _ & Hh & Hf & _). destruct (WA Hh Hf) as (A & _). destruct A as [A|[A|[A|A]]]; discriminate.
+  - destruct F as (_ & _ & Hm & _). right. split; [reflexivity|].
+    destruct Hm as [[k [Hk Hc]]|[(Hh & Hf & Hc)|(Hh & Hf)]].
+    + left. eauto.
+    + right. split; [assumption|]. unfold in_chain in Hc. lia.
+    + destruct (WA Hh Hf) as (A & _). destruct A as [A|[A|[A|A]]]; discriminate.
+  - contradiction.
+Qed.
